@@ -95,8 +95,6 @@ Conn2(u) == {And2(a, b) : a \in Conn1(u), b \in BoolLeaves2} \cup {And2(b, a) : 
             \cup {NotX(a) : a \in Conn1(u)} \cup {IsNullX(a) : a \in Conn1(u)}
 ConnSpace(u) == Conn1(u) \cup Conn2(u)
 FoldLaw == cur = cur /\ FoldLawOn(FoldSpace(0), FoldRows) /\ FoldLawIn("shipped", ConnSpace(0), FoldRows)
-(* folding the connectives as well is a legal optimisation as long as it evaluates them *)
-FoldLawFull == cur = cur /\ FoldLawIn("full", ConnSpace(0), FoldRows)
 (* non-vacuity: the short-cut `a constant FALSE decides an AND wherever it stands` must be rejected (NULL AND FALSE) *)
 FoldLawAbsorb == cur = cur /\ FoldLawIn("absorb", Conn1(0), FoldRows)
 (* constant expressions for the spec->code replay of folding *)
@@ -116,6 +114,8 @@ CConn1(u) == AndOr(CBoolLeaves, CBoolLeaves) \cup Unary(CBoolLeaves)
 CConn2Quick(u) == LET inner == AndOr(CBoolLits, CBoolLits)
                   IN AndOr(inner, CBoolLits) \cup AndOr(CBoolLits, inner) \cup Unary(inner)
 CConn2All(u) == AndOr(CConn1(u), CBoolLeaves) \cup AndOr(CBoolLeaves, CConn1(u)) \cup Unary(CConn1(u))
+(* folding the connectives as well is a legal optimisation as long as it evaluates them *)
+FoldLawFull == cur = cur /\ FoldLawIn("full", Conn1(0) \cup CConn1(0) \cup CConn2Quick(0), FoldRows)
 ConstSpaceQuick(u) == {e \in CInt1(u) \cup CBool1(u) : e.k # "c"}
                       \cup {Bin(op, a, b) : op \in {"sub"}, a \in CInt1(u), b \in ConstLeavesI}
                       \cup CConn1(u) \cup CConn2Quick(u)
